@@ -142,7 +142,7 @@ theorem cancelAwaiteds_np_self (w : World) (z : Pid) : np (cancelAwaiteds w z) z
 
 theorem winv_cancelAwaiteds {w : World} (h : WInv w) (z : Pid) : WInv (cancelAwaiteds w z) := by
   have hev : WEv w (cancelAwaiteds w z) :=
-    ec_cancelAwaiteds (wev_closed w) allButProc_notProc.event allButProc_notProc.res w z h.wev
+    ec_cancelAwaiteds (wev_closed w) allButProc_notProc.event ⟨allButProc_notProc.res, allButProc_notProc.cond⟩ w z h.wev
   have hwt : ∀ q, ((cancelAwaiteds w z).proc q).waiters =
       if q ∈ w.pa z then (removeFirst (w.proc q).waiters z).1 else (w.proc q).waiters := by
     intro q
@@ -289,7 +289,7 @@ macro_rules
           simp [hzp]))
 
 theorem winv_dropResources {w : World} (h : WInv w) (z : Pid) : WInv (dropResources w z) := by
-  have hev : WEv w (dropResources w z) := ec_dropResources (wev_closed w) allButProc_notProc.res w z h.wev
+  have hev : WEv w (dropResources w z) := ec_dropResources (wev_closed w) ⟨allButProc_notProc.res, allButProc_notProc.cond⟩ w z h.wev
   exact h.of_views (fun p => by simp) (fun q => by simp) (fun p _ => by simp) hev.1 hev.2
 
 theorem winv_finishProc {w : World} (h : WInv w) (z : Pid) (val : Int) (stopped : Bool) :
